@@ -20,6 +20,8 @@ EXTENDS JsonValue
 (* text of a small archive member comes out padded with NUL bytes to 256 characters.                                              *)
 (* F-C06-9: the urlencoded decoder refuses every body whose schema has an object-valued property ("unsupported schema"), although   *)
 (* the per-property decoder reads a deepObject field (o[a]=4) -- it does so when the same schema sits below a typed allOf.           *)
+(* Repaired in round 6: F-C06-2 (750547f), F-C06-4 (403f95a), F-C06-7 (bbdbedc), F-C06-8 (fe6a30a).  Their class predicates stay: a fixed     *)
+(* entry of known_findings.json suppresses nothing, so a recurrence is printed as a VIOLATION that carries the class name.                *)
 HasKeyK(v, k) == \E i \in DOMAIN v.k : v.k[i] = k
 Class(line, bad) ==
    LET c == line.c IN
